@@ -216,6 +216,11 @@ func TestVerifC39(t *testing.T) {
 								logf("   R->%s RESPONSE ini=%d resp=%d from=%s to=%s", c.name, msg.InitiatorRelayIndex, msg.ResponderRelayIndex, ff, tt)
 								c.fromR = append(c.fromR, msg.ResponderRelayIndex)
 								if tgt, ok := c.requested[msg.InitiatorRelayIndex]; ok {
+									// a peer may have used one index value for requests to several targets: the relay's answer names the
+									// pair it is about
+									if tt.IsValid() && slices.Contains(c.requestedAll[msg.InitiatorRelayIndex], tt) {
+										tgt = tt
+									}
 									c.legByRIdx[msg.ResponderRelayIndex] = tgt
 								}
 								r.Count("relay_responses_returned_to_initiator", 1)
